@@ -91,6 +91,31 @@ impl FileUploadSession {
         FileUploadSession::new_impl(config, threadpool, upload_progress_updater, true).await
     }
 
+    /// Verification seam: build a session around a client supplied by the harness
+    /// (same construction as `new_impl`, minus the client factory and the auth token parse).
+    #[cfg(feature = "verif")]
+    pub async fn new_with_client(
+        config: Arc<TranslatorConfig>,
+        threadpool: Arc<ThreadPool>,
+        upload_progress_updater: Option<Arc<dyn ProgressUpdater>>,
+        client: Arc<dyn Client + Send + Sync>,
+        dry_run: bool,
+    ) -> Result<Arc<FileUploadSession>> {
+        let shard_interface = SessionShardInterface::new(config.clone(), client.clone(), dry_run).await?;
+
+        Ok(Arc::new(Self {
+            shard_interface,
+            client,
+            upload_progress_updater,
+            threadpool,
+            repo_id: None,
+            config,
+            current_session_data: Mutex::new(DataAggregator::default()),
+            deduplication_metrics: Mutex::new(DeduplicationMetrics::default()),
+            xorb_upload_tasks: Mutex::new(JoinSet::new()),
+        }))
+    }
+
     async fn new_impl(
         config: Arc<TranslatorConfig>,
         threadpool: Arc<ThreadPool>,
